@@ -25,6 +25,8 @@ void count_ops(long n = 1);
 void note(const char *fmt, ...) __attribute__((format(printf, 1, 2))); // trace line shown on replay / in failure message
 bool verbose();                        // true in --replay mode
 void finish_ok();                      // called by the glue after exec_case returned
+void set_fuzz_mode(bool on);            // libFuzzer targets: violation() traps, labels/notes are dropped
+void reset_case_state();                // fuzz mode: forget the previous case
 extern void (*cleanup_hook)();         // runs once before any exit path (violation, internal error, normal end)
 
 #define VF_CHECK(cond, cls, ...) do { if (!(cond)) ::vf::violation(cls, __VA_ARGS__); } while (0)
